@@ -13,7 +13,8 @@ any number of dates.
 The balance identity "root value = cash of every strategy + value of every security" is proved for the engine
 model in `Bt.C01` and is taken here as the hypothesis `hC01`.
 
-Departures of the code from the property text are kept as `witness_*` theorems at the end.
+Departures of the code from the property text are kept as `witness_*` theorems at the end; the three
+repaired ones (`*_before_repair`) are about explicitly named old formulas.
 -/
 namespace Bt.C18
 open Bt.Report
@@ -144,50 +145,62 @@ theorem transactions_nonzero (bo : Bool) (t : Nat) (prev : Option (List (ι × K
 example : ∀ x ∈ txnRows true 1 (some (positionsAt exSnap0)) exSnap, x.qty ≠ 0 ∧ x.date = 1 :=
   fun x h => transactions_nonzero _ _ _ _ x h
 
-/-- The listed price is the market price of the (last) security of that name plus its bid/offer paid on the
-    date over the listed quantity; without bid/offer accounting it is the market price. -/
-theorem transaction_price (boSet : Bool) (k : ι) (d p b : K) (s : Snap ι K)
-    (hp : lastOf Cell.price k s = some (some p)) (hb : lastOf Cell.boPaid k s = some b) :
-    txnPrice boSet k d s = some (if boSet then p + b / d else p) := by
+/-- The listed price is the market price of the ticker plus — with bid/offer accounting — the sum over ALL
+    securities of that name of (bid/offer paid on the date / multiplier), over the listed (net) quantity; without
+    bid/offer accounting it is the market price. -/
+theorem transaction_price (boSet : Bool) (k : ι) (d p : K) (s : Snap ι K)
+    (hp : lastOf Cell.price k s = some (some p))
+    (hk : k ∈ (secPairs (fun c => c.boPaid / c.mult) s).map Prod.fst) :
+    txnPrice boSet k d s =
+      some (if boSet then p + sumFor k (secPairs (fun c => c.boPaid / c.mult) s) / d else p) := by
+  have hb : getK k (spreadAt s) = some (sumFor k (secPairs (fun c => c.boPaid / c.mult) s)) := by
+    unfold spreadAt secAgg; rw [getK_groupSum]; simp [hk]
   unfold txnPrice
   cases boSet <;> simp [hp, hb, ofNum_eq]
 
-example : txnPrice true 5 5 exSnap = some (10 + 1 / 5) ∧ txnPrice false 5 5 exSnap = some 10 := by decide +kernel
+example : txnPrice true 5 5 exSnap = some (10 + 1 / 5) ∧ txnPrice false 5 5 exSnap = some 10 ∧
+    txnPrice true 5 5 sharedSnap = some (10 + 1 / 5) ∧ txnPrice true 1 4 mRun.dates.getLast! = some (10 + 1 / 4) := by
+  decide +kernel
 
-/-- Price = outlay / quantity = execution price: when the date's only trade of the security bought `d > 0`
-    units at market `p` with half spread `h` (outlay `d·p + |d|·h`, bid/offer paid `|d|·h`; multiplier 1, one
-    security of that name), the listed price is `p + h`; a sale (`d < 0`) lists `p − h`. -/
-theorem transaction_price_is_execution_price (k : ι) (d p h : K) (s : Snap ι K) (hd : d ≠ 0)
-    (hp : lastOf Cell.price k s = some (some p)) (hb : lastOf Cell.boPaid k s = some (marketSpread d h 1)) :
-    txnPrice true k d s = some ((d * p + marketSpread d h 1) / d) ∧
+/-- Price = outlay / (quantity × multiplier) = execution price: when the date's only trade of the ticker — in
+    whichever of the securities of that name, with any multiplier `m ≠ 0` — moved `d ≠ 0` units at market `p`
+    with half spread `h` (outlay `d·p·m + |d|·h·m`, bid/offer paid `|d|·h·m`, the other securities of the name
+    paid nothing), the listed price is `p + h` for a purchase and `p − h` for a sale. -/
+theorem transaction_price_is_execution_price (k : ι) (d p h m : K) (s : Snap ι K) (hd : d ≠ 0) (hm : m ≠ 0)
+    (hp : lastOf Cell.price k s = some (some p))
+    (hk : k ∈ (secPairs (fun c => c.boPaid / c.mult) s).map Prod.fst)
+    (hb : sumFor k (secPairs (fun c => c.boPaid / c.mult) s) = marketSpread d h m / m) :
+    txnPrice true k d s = some ((d * p * m + marketSpread d h m) / (d * m)) ∧
     (0 < d → txnPrice true k d s = some (p + h)) ∧ (d < 0 → txnPrice true k d s = some (p - h)) := by
-  rw [transaction_price true k d p _ s hp hb]
-  simp only [↓reduceIte, marketSpread, absA_eq, mul_one]
+  rw [transaction_price true k d p s hp hk, hb]
+  simp only [↓reduceIte, marketSpread, absA_eq]
   refine ⟨?_, ?_, ?_⟩
   · congr 1; field_simp
   · intro h0; rw [abs_of_pos h0]; congr 1; field_simp
   · intro h0; rw [abs_of_neg h0]; congr 1; field_simp; ring
 
-example : txnPrice true 1 4 (oneRun.dates.getLast!) = some (10 + 1 / 4) := by decide +kernel
+example : txnPrice true 1 4 mRun.dates.getLast! = some ((4 * 10 * 10 + marketSpread 4 (1 / 4) 10) / (4 * 10)) :=
+  (transaction_price_is_execution_price 1 4 10 (1 / 4) 10 _ (by decide) (by decide) (by decide +kernel)
+    (by decide +kernel) (by decide +kernel)).1
 
-/-- What the list shows for a security that traded once on a date: its position moved from `x` to `x + q`
-    (`q ≠ 0`), the market price is `p`, the bid/offer it paid that date is `b`: the row is `listedRow` — the
-    quantity `q` at `p + b / q` — which is what the replay theorem below feeds to `ReplayTransactions`. -/
+/-- What the list shows for a ticker that traded once on a date: its aggregated position moved from `x` to
+    `x + q` (`q ≠ 0`), the market price is `p`, the (bid/offer paid / multiplier) of the securities of that name
+    adds up to `spread / mult`: the row is `listedRow` — the quantity `q` at `p + spread / mult / q` — which is
+    what the replay theorem below feeds to `ReplayTransactions`. -/
 theorem txnRow_of_single_trade (t : Nat) (pv : List (ι × K)) (s : Snap ι K) (tr : OTrade ι K) (x : K)
     (hprev : getK tr.name pv = some x) (hq : tr.qty ≠ 0)
     (hp : lastOf Cell.price tr.name s = some (some tr.price))
-    (hb : lastOf Cell.boPaid tr.name s = some tr.spread) :
+    (hb : getK tr.name (spreadAt s) = some (tr.spread / tr.mult)) :
     (txnRow true t (some pv) s (tr.name, x + tr.qty)).map (fun r => (r.name, some r.qty, r.price)) =
       some (listedRow tr) := by
   have hqty : qtyAt (some pv) tr.name (x + tr.qty) = tr.qty := by simp [qtyAt, hprev]
   have hnz : isNonzero tr.qty = true := (isNonzero_iff _).2 hq
   unfold txnRow
   simp only [hqty, hnz, ↓reduceIte, Option.map_some, listedRow, ofNum_eq]
-  rw [transaction_price true tr.name tr.qty tr.price tr.spread s hp hb]
-  simp
+  simp [txnPrice, hp, hb, ofNum_eq]
 
-example : (txnRow true 1 (some (positionsAt oneRun.dates.head!)) oneRun.dates.getLast! (1, 0 + 4)).map
-    (fun r => (r.name, some r.qty, r.price)) = some (listedRow oneTrade) := by decide +kernel
+example : (txnRow true 1 (some (positionsAt mRun.dates.head!)) mRun.dates.getLast! (1, 0 + 4)).map
+    (fun r => (r.name, some r.qty, r.price)) = some (listedRow mTrade) := by decide +kernel
 
 /-! ### turnover and the Herfindahl index -/
 
@@ -201,15 +214,15 @@ theorem turnover_def (n0 : Node ι) (r : Cell K) (rest : Snap ι K) (h : outlays
 
 example : outlaysAt exSnap = [(5, 20), (7, -5)] ∧ turnoverAt exSnap = some (5 / 100) := by decide +kernel
 
-/-- a tree without any security has an empty outlay frame and its turnover is NaN on every date
-    (the text's formula gives 0: see `witness_turnover_no_securities`) -/
-theorem turnover_no_security (s : Snap ι K) (h : outlaysAt s = []) : turnoverAt s = none := by
+/-- a tree without any security has an empty outlay frame: nothing was bought or sold and the turnover is
+    0 over the root's value, i.e. 0, on every date (before 9e115a9 it was NaN:
+    `witness_turnover_no_securities_before_repair`) -/
+theorem turnover_no_security (n0 : Node ι) (r : Cell K) (rest : Snap ι K) (h : outlaysAt ((n0, r) :: rest) = []) :
+    turnoverAt ((n0, r) :: rest) = some 0 := by
   unfold turnoverAt
-  cases s with
-  | nil => rfl
-  | cons a l => simp [h]
+  simp [h, divO_eq]
 
-example : turnoverAt [(nodeS 0 0, cellS 100 0 100 100)] = none := turnover_no_security _ (by decide +kernel)
+example : turnoverAt [(nodeS 0 0, cellS 100 0 100 100)] = some 0 := turnover_no_security _ _ _ (by decide +kernel)
 
 /-- `Backtest.herfindahl_index`: the sum of the squared aggregated security weights -/
 theorem hhi_def (fi : Bool) (n0 : Node ι) (r : Cell K) (rest : Snap ι K) :
@@ -240,9 +253,9 @@ example : (reports exRun).map (fun d => d.price) = [some 100, some 101] := by de
 /-! ### replay -/
 
 /-- One date: when every trade of the date is in a different security (so the list shows each as a row of
-    its own, `txnRow_of_single_trade`), is not `is_zero`, was executed at the date's market price, paid its
-    spread on a multiplier-1 security (or paid none), and the commission does not change when it is charged
-    on the spread-inclusive price, then `ReplayTransactions` fed with the listed rows — in the list's order,
+    its own, `txnRow_of_single_trade`), is not `is_zero`, was executed at the date's market price on a security
+    with any non-zero multiplier, and the commission does not change when it is charged on the spread-inclusive
+    price, then `ReplayTransactions` fed with the listed rows — in the list's order,
     whatever the execution order was — leaves the positions and the cash the original trades left. -/
 theorem replay_day_reproduces {tol : K} (htol : 0 < tol) (fee : K → K → K) (st : RState ι K) (d : ODay ι K)
     (h : GoodDay tol fee st.secs d) :
@@ -250,7 +263,9 @@ theorem replay_day_reproduces {tol : K} (htol : 0 < tol) (fee : K → K → K) (
   replayDay_listed htol st h
 
 example : replayDay true tolQ fee0 px10 rtStart ([oneTrade].map listedRow) = .ok (origDay fee0 rtStart [oneTrade]) ∧
-    (origDay fee0 rtStart [oneTrade]).cash = 959 := by decide +kernel
+    (origDay fee0 rtStart [oneTrade]).cash = 959 ∧
+    replayDay true tolQ fee0 px10 mStart ([mTrade].map listedRow) = .ok (origDay fee0 mStart [mTrade]) ∧
+    (origDay fee0 mStart [mTrade]).cash = 590 := by decide +kernel
 
 /-- `replay_reproduces_partial` (induction over the dates, any number of them): under at most one trade per
     security and date and the conditions of `replay_day_reproduces`, replaying the listed rows date by date
@@ -262,8 +277,7 @@ example : replayDay true tolQ fee0 px10 rtStart ([oneTrade].map listedRow) = .ok
     (`transactions_cumulate`); for the positions the composition with `transactions` of the recorded histories
     is `replay_reproduces_positions` below (every run), for cash and values it is not composed into one
     statement; (2) the general statement — any run — is false: see
-    `witness_round_trip_vanishes`, `witness_price_dependent_commission`, `witness_multiplier_price`,
-    `witness_shared_ticker_spread_dropped`. -/
+    `witness_round_trip_vanishes`, `witness_price_dependent_commission`. -/
 theorem replay_reproduces_partial {tol : K} (htol : 0 < tol) (fee : K → K → K)
     (rows : Nat → List (ι × Option K × Option K)) (days : List (ODay ι K)) (t0 : Nat) (st : RState ι K)
     (hrows : ∀ j d, days[j]? = some d → rows (t0 + j) = d.shown.map listedRow)
@@ -278,7 +292,7 @@ example : replayTxns true tolQ fee0 (transactions oneRun) 1 rtStart [px10] = .ok
   intro tr htr
   simp only [List.mem_singleton] at htr
   subst htr
-  exact ⟨by decide +kernel, by decide +kernel, rfl, Or.inl (by decide +kernel), rfl⟩
+  exact ⟨by decide +kernel, by decide +kernel, rfl, by decide +kernel, by decide +kernel, rfl⟩
 
 /-- Positions, composed and for EVERY run (any tree, shared tickers, any number of trades per date, any
     costs): when the replay of the run's own transaction list completes (children present, bid/offer accounting
@@ -334,27 +348,28 @@ theorem witness_price_dependent_commission :
       = .ok [1000 - 41 - 41 / 100] := by
   decide +kernel
 
-/-- With a multiplier `m ≠ 1` the bid/offer paid (cash, multiplier included) is divided by the quantity only:
-    4 units @10 with multiplier 10 and half spread 1/4 pay 10 of spread; the execution price is 10.25, the
-    list shows 10 + 10/4 = 12.5. -/
-theorem witness_multiplier_price :
+/-! Pre-repair behaviour (the formulas `txnPriceOld` / `turnoverAtOld` the code used before 445d8ee, 1793789,
+    9e115a9), next to what the repaired model gives on the same histories. -/
+
+/-- Before 445d8ee the bid/offer paid (cash, multiplier included) was divided by the quantity only: 4 units @10
+    with multiplier 10 and half spread 1/4 pay 10 of spread; the execution price is 10.25, the old list showed
+    10 + 10/4 = 12.5. -/
+theorem witness_multiplier_price_before_repair :
     marketSpread (4 : ℚ) (1 / 4) 10 = 10 ∧
-    txnPrice true 1 (4 : ℚ) [(nodeS 0 0, cellS 1000 0 590 100), (nodeC 1 1, cellC 400 400 4 410 10 10)] = some (25 / 2) := by
+    txnPriceOld 1 4 mRun.dates.getLast! = some (25 / 2) ∧ txnPrice true 1 4 mRun.dates.getLast! = some (41 / 4) := by
   decide +kernel
 
-/-- A ticker held by two sub-strategies: only the LAST same-named security's bid/offer paid enters the price.
-    `exSnap`: the first security `5` bought 3 and paid nothing, the second bought 2 and paid 1; had the first
-    one paid the spread instead, the listed price would not show it. -/
-theorem witness_shared_ticker_spread_dropped :
-    txnPrice true 5 (5 : ℚ)
-      [(nodeS 0 0, cellS 100 50 40 101), (nodeC 1 5, cellC 30 30 3 31 1 10), (nodeS 2 2, cellS 30 20 10 100),
-       (nodeC 3 5, cellC 20 20 2 20 0 10)] = some 10 := by
+/-- Before 1793789 only the LAST same-named security's bid/offer paid entered the price: in `sharedSnap` the
+    first security `5` paid 1 of spread and the second nothing; the old list showed the bare market price. -/
+theorem witness_shared_ticker_spread_dropped_before_repair :
+    txnPriceOld 5 5 sharedSnap = some 10 ∧ txnPrice true 5 5 sharedSnap = some (51 / 5) := by
   decide +kernel
 
-/-- A run that never created a security: the code's turnover is NaN on every date while "the lesser of
+/-- Before 9e115a9 a run that never created a security had NaN turnover on every date while "the lesser of
     purchases and sales over NAV" is 0 / NAV = 0. -/
-theorem witness_turnover_no_securities :
-    turnoverAt [(nodeS 0 0, cellS 100 0 100 100)] = none ∧
+theorem witness_turnover_no_securities_before_repair :
+    turnoverAtOld [(nodeS 0 0, cellS 100 0 100 100)] = none ∧
+    turnoverAt [(nodeS 0 0, cellS 100 0 100 100)] = some 0 ∧
     herfindahlAt false [(nodeS 0 0, cellS 100 0 100 100)] = 0 := by
   decide +kernel
 
